@@ -610,6 +610,7 @@ func (sdb *DbSqlite) edgePoints(nodeID, parentID string, points data.Points) err
 	var edge data.Edge
 
 	newEdge := false
+	newRoot := false
 
 	if len(edges) <= 0 {
 		newEdge = true
@@ -814,7 +815,7 @@ NextPin:
 				rollback()
 				return fmt.Errorf("Error update root id in meta: %w", err)
 			}
-			sdb.meta.RootID = nodeID
+			newRoot = true
 		}
 	}
 
@@ -827,6 +828,11 @@ NextPin:
 	err = tx.Commit()
 	if err != nil {
 		return err
+	}
+
+	if newRoot {
+		// only now is the new root in the database
+		sdb.meta.RootID = nodeID
 	}
 
 	return nil
